@@ -117,11 +117,11 @@ PENDING = {
 ROUND4 = {
     "C03": " Round 4: one generated table in three is completed on the LIVE mux - its last routes are registered after the requests were served once (judged against the shorter table) and the requests are served again.",
     "C07": " Round 4: panic values whose own Error()/String() method panics (typed-nil error, nil field, nil-map Stringer, go-ldap *Error without cause).",
-    "C09": " Round 4: silent connections (connect and close without a request: the ID is the one OnClose reports) and a second gldap server starting, serving and stopping in the same process are steps of the state machine.",
-    "C10": " Round 4: an earlier handler of the connection may panic after answering (recovered), and one case in six runs with a write deadline that has passed before the pipeline is sent (every response write fails; the Unbind's demands are unchanged).",
+    "C09": " Round 4: silent connections (connect and close without a request: the ID is the one OnClose reports) and a second gldap server starting, serving and stopping in the same process are steps of the state machine; about one sequence in 50 ends with a handler that keeps running 1.5..6 s after its client closed while 73 new connections are accepted, sampling its ConnectionID.",
+    "C10": " Round 4: an earlier handler of the connection may panic after answering (recovered), and one case in six runs with a write deadline that has passed before the pipeline is sent (every response write fails; the Unbind's demands are unchanged); about one case in 60 keeps an earlier handler busy 2.3..5.2 s.",
     "C11": " Round 4: connection states 'inside a TLS session (TLS listener / upgraded with StartTLS), huge answer requested and never read' in singles, pairs and random multisets.",
-    "C14": " Round 4: part reencode (metamorphic): a control object that is modified (SetCookie, field assignment, new bytes in the SAME cookie slice) and encoded again must encode like a fresh control with the same fields; VChu expiry strings with leading zeros from the independent encoder.",
-    "C17": " Round 4: malformed addresses include bracketed literals with junk before/after the brackets.",
+    "C14": " Round 4: part reencode (metamorphic): a control object that is modified (SetCookie, field assignment, new bytes in the SAME cookie slice) and encoded again must encode like a fresh control with the same fields; VChu expiry strings with leading zeros from the independent encoder; every request is decoded a second time with the connection's logger at debug level.",
+    "C17": " Round 4: malformed addresses include bracketed literals with junk before/after the brackets; servers with read/write timeouts and a first connection after an idle period longer than them; a port held on ONE loopback family only, with net.Listen on the same literal address as the reference for 'cannot listen'.",
     "C19": " Round 4: one case in three modifies users' password attribute over LDAP (replace / delete) before the judged binds; the reference predicate uses the credentials the directory holds at bind time, binds use passwords from before and after.",
 }
 
